@@ -18,8 +18,11 @@ T(k) == [kind |-> k, pos |-> IF k = "none" THEN 0 ELSE 1]
 TLSOrders == {<<"none", "tlsstall", "none">>, <<"none", "tlsbad", "none">>, <<"tlsstall", "tlsbad", "none", "none">>,
               <<"tlsstall", "tlsstall", "none">>, <<"tlsbad", "tlsstall", "none">>}
 TLSCases == {[conns |-> Len(o), msgs |-> 1, faults |-> [i \in 1..Len(o) |-> T(o[i])], temps |-> [i \in 1..(Len(o) + 1) |-> 0], sm |-> FALSE] : o \in TLSOrders}
+\* a Server without a Handler of its own (diam.Serve(l, nil)): the DefaultServeMux serves, and reports through diam.ErrorReports()
+DefMuxCases == {[conns |-> 2, msgs |-> 2, faults |-> <<None, [kind |-> kd, pos |-> p]>>, temps |-> <<0, 0, 0>>, sm |-> FALSE, defmux |-> TRUE] :
+                  kd \in {"bad", "badbody", "panic", "eof"}, p \in 1..2}
 Cases(k, m) == {[conns |-> k, msgs |-> m, faults |-> f, temps |-> t, sm |-> FALSE] : f \in FaultSets(k, m), t \in TempPatterns(k)}
-Init == s \in UNION {Cases(k, m) : k \in 2..MaxConns, m \in 2..MaxMsgs} \cup LongBurst \cup TLSCases
+Init == s \in UNION {Cases(k, m) : k \in 2..MaxConns, m \in 2..MaxMsgs} \cup LongBurst \cup TLSCases \cup DefMuxCases
          \cup {[conns |-> 2, msgs |-> 2, faults |-> f, temps |-> <<0, 1, 0>>, sm |-> TRUE] : f \in FaultSets(2, 2)}
 Next == UNCHANGED s
 Emit == PrintT(ToJson(s))
